@@ -87,7 +87,7 @@ theorem inside_can_leave (s : Occ) : (0 < s.readers → (step s .exitR).isSome =
 /-! ### 2a. the same at the level of goroutines: programs of read- and write-locked operations under any schedule
 
 `Thr` = a goroutine (the lock modes of the operations it still has to do, the region it is inside of); `Sys.move` gives one goroutine a turn (leave
-the region it is in, or enter the region of its next operation when the RWMutex specification `step` admits it); `Sys.run` follows any schedule.
+the region it is in, or enter the region of its next operation when the RWMutex specification `step` allows it); `Sys.run` follows any schedule.
 Invariant `Inv`: the mutex's counters ARE the numbers of goroutines inside regions of each kind (`move_keeps_inv`, by the counting lemma
 `countIn_set`); with `Excl` this gives mutual exclusion between goroutines, not only between counter values. -/
 
@@ -113,7 +113,7 @@ def exitEv : Mode → Ev
   | .r => .exitR
   | .w => .exitW
 
-/-- goroutine `i` makes its next move: it leaves the region it is inside of, or enters the region of its next operation if the mutex admits it now
+/-- goroutine `i` makes its next move: it leaves the region it is inside of, or enters the region of its next operation if the mutex allows it now
 (`none`: the goroutine does not exist, has finished, or has to wait) -/
 def Sys.move (s : Sys) (i : Nat) : Option Sys :=
   match s.ths[i]? with
